@@ -16,7 +16,9 @@ INNER = {
     "In3": ("In2 : u\nq : v", ("struct", [("u", ("struct", [("a", ("scalar", "H"))], False)), ("v", ("scalar", "q"))], False)),
     "InPtr": ("P : p\nI : x", ("struct", [("p", ("scalar", "P")), ("x", ("scalar", "I"))], False)),
 }
-UNION = {"U1": ("B : a\nI : b", ("union", [("a", ("scalar", "B")), ("b", ("scalar", "I"))]))}
+UNION = {"U1": ("B : a\nI : b", ("union", [("a", ("scalar", "B")), ("b", ("scalar", "I"))])),
+         # largest member not a multiple of the alignment: sizeof is 8 (tail padding)
+         "U2": ("s*5 : s\nI : i", ("union", [("s", ("array", ("scalar", "s"), 5)), ("i", ("scalar", "I"))]))}
 
 
 def kinds(full):
@@ -32,6 +34,9 @@ def kinds(full):
     K.append(("starr:In2*2", "In2*2 : {n}", ("array", INNER["In2"][1], 2)))
     K.append(("starr:In1*2", "In1*2 : {n}", ("array", INNER["In1"][1], 2)))
     K.append(("un:U1", "U1 : {n}", UNION["U1"][1]))
+    K.append(("un:U2", "U2 : {n}", UNION["U2"][1]))
+    # one bitfield per line: consecutive lines of the same storage type share a unit while they fit (as in C)
+    K.append(("bits1:B4", "B*#4 : {n}", ("bits", "B", [("{n}", 4)])))
     K.append(("td:myint", "myint : {n}", ("scalar", "I")))
     K.append(("bits:B3/5", "B*#3/5 : {n}x/{n}y", ("bits", "B", [("{n}x", 3), ("{n}y", 5)])))
     K.append(("bits:I4/12/16", "I*#4/12/16 : {n}p/{n}q/{n}r", ("bits", "I", [("{n}p", 4), ("{n}q", 12), ("{n}r", 16)])))
@@ -160,6 +165,28 @@ def same(got, want):
     return got == want
 
 
+def merge_bit_lines(fields, members, psize):
+    """C semantics of one-bitfield-per-line members: adjacent ones of the same storage type share the unit while they fit"""
+    merged, mfields = [], []
+    for (nm, tt), fld in zip(members, fields):
+        if (merged and fld[0].startswith("bits1:") and mfields[-1][0].startswith("bits1:") and merged[-1][1][0] == "bits"
+                and merged[-1][1][1] == tt[1] and sum(b for _, b in merged[-1][1][2]) + sum(b for _, b in tt[2]) <= 8 * CL.scalar_size(tt[1], psize)):
+            merged[-1] = (merged[-1][0], ("bits", tt[1], merged[-1][1][2] + tt[2]))
+        else:
+            merged.append((nm, tt))
+            mfields.append(fld)
+    return merged, mfields
+
+
+def mixed_bitfield_neighbours(fs):
+    """a partially filled bitfield unit next to a bitfield of another storage type: the SysV rule then lets the second
+    one start inside the first one's unit, which neither the reference calculator nor the property's wording covers"""
+    for a, b in zip(fs, fs[1:]):
+        if a[0].startswith("bits") and b[0].startswith("bits") and (a[0].startswith("bits1") or b[0].startswith("bits1")) and a[2][1] != b[2][1]:
+            return True
+    return False
+
+
 # ------------------------------------------------------------------ one definition
 def check_definition(args):
     """args = (list of kind tuples, packed, psize, varkind or None, is_union)"""
@@ -177,7 +204,10 @@ def check_definition(args):
             tt = ("bits", t[1], [(a.replace("{n}", nm), b) for a, b in t[2]])
         members.append((nm, tt))
         order_of[nm] = ">" if kid.startswith("sc>") else "<"
-    kinds_s = "+".join(k for k, _, _ in fields) + (("+" + var[0]) if var else "")
+    merged, mfields = merge_bit_lines(fields, members, psize)
+    all_fields = fields
+    members, fields = merged, mfields
+    kinds_s = "+".join(k for k, _, _ in all_fields) + (("+" + var[0]) if var else "")
     tag = (kinds_s, "packed" if packed else "natural", "p%d" % psize, "union" if is_union else "struct")
     fmt = "\n".join(lines + ([var[1].replace("{n}", "v")] if var else []))
     case = {"fmt": fmt, "packed": packed, "psize": psize, "union": is_union, "kinds": kinds_s}
@@ -383,8 +413,11 @@ def definitions(tier):
     out = []
     for n in range(1, maxf + 1):
         pool = K if n <= 2 else (K if (full and n == 3) else [k for k in K if k[0] in (
-            "sc:B", "sc:H", "sc:I", "sc:q", "sc:P", "sc:d", "arr:B*3", "st:In1", "st:InP", "st:InPtr", "bits:B3/5", "un:U1", "starr:In2*2")])
+            "sc:B", "sc:H", "sc:I", "sc:q", "sc:P", "sc:d", "arr:B*3", "st:In1", "st:InP", "st:InPtr", "bits:B3/5", "un:U1", "starr:In2*2",
+            "un:U2", "bits1:B4")])
         for fs in itertools.product(pool, repeat=n):
+            if mixed_bitfield_neighbours(fs):
+                continue
             for packed in (False, True):
                 for psize in (32, 64):
                     out.append((list(fs), packed, psize, None, False))
@@ -418,6 +451,10 @@ def validate_clayout_with_gcc():
         for b in sel[::5]:
             for c in sel[::6]:
                 types.append([a, b, c])
+    KD = dict((k[0], k) for k in K)
+    for combo in (["bits1:B4", "bits1:B4", "sc:B"], ["bits1:B4", "sc:H"], ["bits1:B4", "bits1:B4", "bits1:B4", "sc:I"],
+                  ["bits:B3/5", "bits1:B4", "sc:B"], ["sc:B", "bits1:B4", "bits1:B4", "sc:B"], ["bits1:B4", "bits:B3/5", "sc:H"]):
+        types.append([KD[c] for c in combo])
     res = {"checked": 0, "mismatch": [], "skipped": None}
     d = tempfile.mkdtemp(prefix="amc_c16_")
     try:
@@ -426,13 +463,16 @@ def validate_clayout_with_gcc():
                 defs, rows, counter = [], [], [0]
                 exp = []
                 for idx, fs in enumerate(types):
-                    members = [("m%d" % j, f[2]) for j, f in enumerate(fs)]
+                    members = [("m%d" % j, (f[2] if f[2][0] != "bits" else ("bits", f[2][1], [(a.replace("{n}", "m%d" % j), b) for a, b in f[2][2]])))
+                               for j, f in enumerate(fs)]
+                    members, _mf = merge_bit_lines(fs, members, psize)
                     t = ("struct", members, packed)
                     decl = CL.c_decl(t, "x", defs, counter)
                     tn = decl.split(" ")[0]
-                    rows.append("sizeof(%s), _Alignof(%s), %s" % (tn, tn, ", ".join("offsetof(%s,%s)" % (tn, n) for n, _ in members)))
+                    named = [(n, m) for n, m in members if m[0] != "bits"]
+                    rows.append("sizeof(%s), _Alignof(%s), %s" % (tn, tn, ", ".join("offsetof(%s,%s)" % (tn, n) for n, _ in named)))
                     offs, size, al = CL.layout(t, psize)
-                    exp.append([size, al] + [o for _, o, _ in offs])
+                    exp.append([size, al] + [o for (n_, o, _), (_n, m) in zip(offs, members) if m[0] != "bits"])
                 src = "#include <stddef.h>\n" + "\n".join(defs) + "\nunsigned long long T[] = {\n" + ",\n".join(rows) + "\n};\n"
                 cf = os.path.join(d, "l.c")
                 open(cf, "w").write(src)
